@@ -217,3 +217,60 @@ def run(chk, repo):
     from rules.shared import kwname
     chk.clauses.append('C01.kw (shared R-THREAD) parameters handed on as keyword arguments keep their name: no `a=b` between two parameters of one function')
     kwname(chk, repo, 'C01.kw', ['svgraph', 'cli.call_variant_peptide'], floor=0)
+    chk.clauses.append('C01.l the only variants create_variant_graph drops without applying start strictly in front of a cursor node - exactly the positions apply_variant rejects')
+    skip_guard_contract(chk, repo, 'C01.l')
+
+
+def skip_guard_contract(chk, repo, rid):
+    """R-CONTRACT (belief contradiction): create_variant_graph drops a variant that lies in front of the cursors before it ever
+    reaches apply_variant.  apply_variant states which positions it handles: it raises for `variant_start < source_start` and has
+    a dedicated branch for `variant_start == source_start`.  The caller's drop condition must be that very rejection bound; a
+    drop condition that also covers equality discards variants the callee explicitly handles (adjacent / same-position variants)."""
+    from sa import sem
+    import re as _re
+    chk.rule(rid, 'R-CONTRACT: the variant-in-front-of-the-cursor skip in create_variant_graph equals the lower rejection bound of apply_variant', 2)
+    cv = repo.func('svgraph.ThreeFrameTVG:ThreeFrameTVG.create_variant_graph')
+    av = repo.func('svgraph.ThreeFrameTVG:ThreeFrameTVG.apply_variant')
+    chk.uses(cv, av)
+    NODE_START = r'\w+\.seq\.locations\[0\]\.ref\.start'
+
+    def norm(t):
+        return _re.sub(NODE_START, 'NODE.start', t)
+    # callee: literals under which it raises, about the variant start and the start of the node it is applied to
+    nav = av.node            # the repository-level form: one `if ...: raise` per statement, tests not merged into decision regions
+    chv = sem.block_chains(nav)
+    callee = set()
+    for tst, own, fx in sem.facts_at_tests(nav, lambda e: True):
+        if own is None or not any(isinstance(x, ast.Raise) for x in own.body):
+            continue
+        e = sem.expand_names(nav, own, tst, chains=chv)
+        for d in (e.values if isinstance(e, ast.BoolOp) and isinstance(e.op, ast.Or) else [e]):
+            l_ = sem.lit(unparse(d))
+            t = norm(l_[0])
+            if 'variant.location.start' in t and 'NODE.start' in t and 'source' in unparse(d):
+                callee.add((t, l_[1]))
+    has_eq = any(norm(sem.lit(unparse(sem.expand_names(nav, own, tst, chains=chv)))[0]) in ('NODE.start == variant.location.start', 'variant.location.start == NODE.start')
+                 for tst, own, fx in sem.facts_at_tests(nav, lambda e: True) if own is not None)
+    chk.ob(rid, 'apply_variant rejects exactly variant_start < source_start and handles variant_start == source_start', av.where,
+           callee == {('variant.location.start < NODE.start', True)} and has_eq,
+           f"apply_variant's lower rejection bound is {sorted(callee)} (equality branch present: {has_eq})", key=av.qual + '::lower-bound', fn=av.qual)
+    # caller: the `continue` that advances to the next variant without applying this one
+    ncv = sem.nf(repo, cv)
+    drops = []
+    for tst, own, fx in sem.facts_at_tests(ncv, lambda e: True):
+        if own is None or not isinstance(own, ast.If) or not any(isinstance(x, ast.Continue) for x in own.body):
+            continue
+        if not any(isinstance(x, ast.Assign) and isinstance(x.value, ast.Call) and call_name(x.value) == 'next' for x in own.body):
+            continue
+        for c in ast.walk(tst):
+            if isinstance(c, ast.Compare) and len(c.ops) == 1:
+                l_ = sem.lit(unparse(c))
+                t = norm(l_[0])
+                if 'variant.location.start' in t and 'NODE.start' in t:
+                    # the comparison sits inside any(...) over the cursors: the variant is dropped when it holds for some cursor
+                    drops.append((t, l_[1]))
+    ok = drops == [('variant.location.start < NODE.start', True)]
+    chk.ob(rid, 'a variant is dropped without being applied only when it starts strictly in front of a cursor', cv.where, ok,
+           f"create_variant_graph drops the variant when {drops} for some cursor, but apply_variant handles every variant_start >= source_start (it has a dedicated "
+           "branch for equality): variants that start exactly at a node boundary (adjacent variants, second allele of a site, merged MNVs) never enter the graph",
+           key=cv.qual + '::skip-guard', fn=cv.qual)
